@@ -227,23 +227,25 @@ func intConstIn(rel, fn string, pick func(ast.Node) (ast.Expr, bool)) (string, b
 	return res, res != ""
 }
 
-// websocketError close codes: every `gws.CloseXxx`-like selector or int literal returned first in the function, in source order
+// websocketError close codes: the integer literals in 1000..1015 of the function, in source order
+// (today: 1000 clean end, 1001 default for errors, 1003 wrong frame type)
 func closeCodes() ([]string, bool) {
 	_, f := parse("webbridge/websocket.go")
 	fd := findFunc(f, "websocketError")
 	if fd == nil {
 		return nil, false
 	}
-	var names []string
+	var out []string
 	ast.Inspect(fd, func(n ast.Node) bool {
-		if sel, ok := n.(*ast.SelectorExpr); ok {
-			if x, ok := sel.X.(*ast.Ident); ok && x.Name == "gws" && strings.HasPrefix(sel.Sel.Name, "Close") {
-				names = append(names, sel.Sel.Name)
+		if bl, ok := n.(*ast.BasicLit); ok && bl.Kind == token.INT {
+			v, err := strconv.Atoi(bl.Value)
+			if err == nil && v >= 1000 && v <= 1015 {
+				out = append(out, bl.Value)
 			}
 		}
 		return true
 	})
-	return names, len(names) > 0
+	return out, len(out) == 3
 }
 
 func emit(b *strings.Builder, name, typ, val, fallback string, ok bool) {
@@ -292,16 +294,11 @@ func main() {
 	emit(&b, "grpcweb_max_len", "Z", lim+"%Z", "4194304%Z", ok)
 
 	cc, ok := closeCodes()
-	codes := map[string]string{"CloseNormalClosure": "1000", "CloseGoingAway": "1001", "CloseProtocolError": "1002", "CloseUnsupported": "1003"}
 	var ccs []string
-	for _, n := range cc {
-		if c, known := codes[n]; known {
-			ccs = append(ccs, c+"%Z")
-		} else {
-			ok = false
-		}
+	for _, c := range cc {
+		ccs = append(ccs, c+"%Z")
 	}
-	emit(&b, "ws_close_codes", "list Z", "["+strings.Join(ccs, "; ")+"]", "[1000%Z; 1003%Z; 1001%Z]", ok)
+	emit(&b, "ws_close_codes", "list Z", "["+strings.Join(ccs, "; ")+"]", "[1000%Z; 1001%Z; 1003%Z]", ok)
 
 	sort.Strings(fallbacks)
 	fmt.Fprintf(&b, "\n(* fallbacks: %s *)\n", strings.Join(fallbacks, " "))
